@@ -17,7 +17,7 @@ func init() {
 		ID:        "C15",
 		Run:       runC15,
 		Technique: "runtime check of ExtendedReport.Marshal output with an independent block walker; decode order/type/value, neighbour independence and verbatim survival of unknown blocks",
-		Rule: "sequences of 0..8 report blocks over the 7 defined kinds and unknown kinds (0, 8..255): every kind order for k <= 3 (exhaustive over the 585 kind sequences, fresh field values each repetition), random sequences up to k = 8, list lengths 0..40, all 16 T values, all flag/ToH combinations; " +
+		Rule: "sequences of 0..8 report blocks over the 7 defined kinds and unknown kinds (0, 8..255): every kind order for k <= 3 (exhaustive over the 585 kind sequences, fresh field values each repetition), random sequences up to k = 8, list lengths 0..40, blocks with length fields around 2^14 words and up to 65533, all 16 T values, all flag/ToH combinations, every unknown block type arriving from the wire; " +
 			"non-trivial = at least one block; distinct by digest of the marshalled octets",
 		Assumptions: []string{
 			"RFC 3611 positions: T in the low nibble of the type-specific octet of BT 1-3; L/D/J in bits 7/6/5 and ToH in bits 4-3 of BT 6; zero for BT 4, 5, 7",
